@@ -5,7 +5,7 @@ import re
 from concurrent.futures import ThreadPoolExecutor
 import vcheck as V
 
-OPK = {1: "Process", 2: "Reopen", 3: "ExtRename", 4: "Pause"}
+OPK = {1: "Process", 2: "Reopen", 3: "ExtRename", 4: "Pause", 5: "RemoveDirFromOutside", 6: "RemoveActiveFileFromOutside"}
 
 # which mismatch kinds speak about which property (see Run_FileSink.kind)
 # C08 speaks about the acknowledged events being in the files, whole, once, in order, minus a prefix removed by retention:
@@ -38,10 +38,10 @@ WHAT = {
 }
 
 ARGS = {
-    ("C08", "quick"): ["-modes", "seq,timed,special,conc,kill", "-seq", "700", "-timed", "120", "-conc", "200", "-kill", "24"],
-    ("C08", "thorough"): ["-modes", "seq,timed,special,conc,kill", "-seq", "5000", "-timed", "800", "-conc", "600", "-kill", "150", "-len", "30"],
-    ("C15", "quick"): ["-modes", "seq,timed,special", "-seq", "800", "-timed", "200"],
-    ("C15", "thorough"): ["-modes", "seq,timed,special,conc,kill", "-seq", "6000", "-timed", "1500", "-conc", "200", "-kill", "60", "-len", "30"],
+    ("C08", "quick"): ["-modes", "seq,timed,special,conc,kill,fsize", "-seq", "700", "-timed", "120", "-conc", "200", "-kill", "24", "-fsize", "24"],
+    ("C08", "thorough"): ["-modes", "seq,timed,special,conc,kill,fsize", "-seq", "5000", "-timed", "800", "-conc", "600", "-kill", "150", "-fsize", "150", "-len", "30"],
+    ("C15", "quick"): ["-modes", "seq,timed,seqrm,special", "-seq", "700", "-timed", "180", "-seqrm", "200"],
+    ("C15", "thorough"): ["-modes", "seq,timed,seqrm,special,conc,kill", "-seq", "6000", "-timed", "1500", "-seqrm", "1500", "-conc", "200", "-kill", "60", "-len", "30"],
 }
 
 ASSUMPTIONS = [
@@ -51,6 +51,8 @@ ASSUMPTIONS = [
     "nanosecond stamps of one sink have equal length, so sort.Strings orders them numerically",
     "one write(2) of a whole event on an O_APPEND descriptor is atomic, also under SIGKILL (OS assumption; the kill generator samples it)",
     "each Process / Reopen is atomic with respect to the others because it holds FileSink.l (lock discipline: C19)",
+    "deletion of the directory / the active file from outside is not an operation of the histories the C08/C15 history theorems quantify over "
+    "(FileSink.xop); such histories are generated for C15's 'directory created on demand' only and C08's oracles are switched off from the first deletion on",
     "MaxFiles >= 0 (a negative MaxFiles makes pruneFiles index out of range; outside the quantifier)",
     "the umask does not clear owner bits (the harness runs with 022)",
 ]
@@ -68,14 +70,16 @@ MANIFEST = {
                     "each single remove of pruneFiles, the one write(2) — the files read as all acknowledged events plus at most the whole in-flight one), serialised_writers "
                     "(any interleaving of calls, each atomic under FileSink.l: files = events of the nil-returning calls in mutex order). Tie: filesinkh runs random histories "
                     "(1..200-byte writes biased onto the MaxBytes boundary, Reopen, external rename, pauses around MaxDuration, special paths, 1..8 concurrent writers, a child killed "
-                    "with SIGKILL whose directory must equal one of the model's crash points) on the real FileSink; Run_FileSink evaluates model and C08's own statement on the "
+                    "with SIGKILL whose directory must equal one of the model's crash points, a child under RLIMIT_FSIZE whose failing write(2)s must not yield an "
+                    "acknowledged-but-absent event: theorem write_ack_present) on the real FileSink; Run_FileSink evaluates model and C08's own statement on the "
                     "observations after every step by vm_compute. Partial: atomicity of one write(2) under SIGKILL and the lock discipline (C19) are assumed; the kill generator samples the former.",
             "design_ref": "5.C08", "note": _NOTE, "technique": _TECH, "engine": "coq-filesink"},
     "C15": {"text": "same model; theorems rotate_iff (a Process call first rotates <-> MaxBytes > 0 and BytesWritten >= MaxBytes, or MaxDuration > 0 and now - LastCreated > MaxDuration; every state), "
                     "bytes_written_is_since_open, non_rotating_write_same_file, no_limits_never_rotates, stamps_strictly_increase, tsonly_active_plain / active_file_name / "
                     "reopen_restores_name, mode_and_dir (+ constants 0600/0700), retention_after_rotation (right after a rotation the rotated files are exactly the newest MaxFiles of those "
                     "present before pruneFiles, the event sits alone in a file that did not exist before, with the configured name and mode), stamp_order_is_string_order, "
-                    "active_and_foreign_never_removed, special_paths_bypass — over every history/configuration under clock_ok and fault_free. Tie: same driver; after every call "
+                    "active_and_foreign_never_removed, special_paths_bypass, reopen_recreates_dir / rotating_write_recreates_dir (after the directory was removed from outside, every state) "
+                    "— over every history/configuration under clock_ok and fault_free. Tie: same driver, plus histories with deletions from outside (directory / active file); after every call "
                     "BytesWritten, LastCreated, the listing (rotation boundaries, which files were pruned, names by kind), file and directory modes and the foreign files are compared with "
                     "the model; the MaxDuration condition is compared only when the harness's measured interval decides it, otherwise the observed choice is fed to the model and counted as "
                     "ambiguous. Partial: the elapsed-time boundary itself (elapsed == MaxDuration) is not observable.",
@@ -163,7 +167,7 @@ def shrink(ctx, binp, case, kind, budget_s=40):
         if best["cfg"].get(key) in (val, None):
             continue
         cfg = dict(best["cfg"])
-        if val is None:
+        if val is None or val is False:
             cfg.pop(key, None)
         else:
             cfg[key] = val
